@@ -41,6 +41,14 @@ def t1_exceptions() -> Iterator[Dict[str, Any]]:
                   "from_rel": ([frm("zbase", "BaseError", lvl=1)], "BaseError")}[form]
         yield project([mod("p", pkg=True), mod("errors", 1, ops=flat(i1, cls("ConfigError", b1), cls("Deep", "ConfigError"), cls("Plain"))),
                        mod("zbase", 1, ops=flat(cls("BaseError", "Exception"), cls("NotExc")))], "T1x", form=form)
+    # the exception base is re-exported by a facade AFTER (or before) its subclasses were analysed: a moved object is
+    # re-registered behind its subclasses, so anything that relies on "bases come first" in the registry breaks
+    yield project([mod("errors", ops=flat(cls("MyErr", "Exception"), cls("Other"))),
+                   mod("client", ops=flat(frm("errors", "MyErr"), cls("SubErr", "MyErr"), cls("Deep", "SubErr"), cls("NotErr", "object"))),
+                   mod("facade", pkg=True, ops=[frm("errors", "MyErr")], all=["MyErr"])], "T1x", form="reexported-base-roots")
+    yield project([mod("p", pkg=True), mod("errors", 1, ops=flat(cls("MyErr", "Exception"))),
+                   mod("client", 1, ops=flat(frm("errors", "MyErr", lvl=1), cls("SubErr", "MyErr"), cls("Deep", "SubErr"))),
+                   mod("zfacade", 1, ops=[frm("errors", "MyErr", lvl=1)], all=["MyErr"])], "T1x", form="reexported-base-siblings")
 
 
 def t8_prefix_roots() -> Iterator[Dict[str, Any]]:
@@ -120,6 +128,14 @@ def t3_reexport() -> Iterator[Dict[str, Any]]:
     # package listing its own sub-module in __all__ (very common idiom)
     yield project([mod("p", pkg=True, ops=[frm("", "sub", lvl=1)], all=["sub"]), mod("sub", 1, ops=flat(cls("S"))),
                    mod("use", 1, ops=flat(frm("p", "sub"), cls("T", "sub.S")))], "T3", idiom="submodule-in-all")
+    # the re-exported name reaches the package through a chain of plain imports (1, 2, 3 intermediate modules)
+    for n in (1, 2, 3):
+        chain = ["_base"] + [f"_l{k}" for k in range(1, n + 1)]
+        mods = [mod("p", pkg=True, ops=[frm(chain[-1], "X", lvl=1)], all=["X"]), mod("_base", 1, ops=flat(cls("X", body=flat(fn("meth"), cls("In")))))]
+        for k in range(1, n + 1):
+            mods.append(mod(chain[k], 1, ops=[frm(chain[k - 1], "X", lvl=1)]))
+        mods.append(mod("use", 1, ops=flat(frm("p", "X", "PX"), cls("E", "PX"), frm("p._base", "X", "BX"), cls("F", "BX"), cls("G", "BX.In"))))
+        yield project(mods, "T3", idiom="chain", length=n, consumers=["o", "r"])
     # origin lists the name in its own __all__: no move
     yield project([mod("p", pkg=True, ops=[frm("_impl", "X", lvl=1)], all=["X"]),
                    mod("_impl", 1, ops=flat(cls("X")), all=["X"]),
